@@ -4,7 +4,8 @@ Histories as in C18 followed by operations generated on purpose to be rejected, 
 arising at every possible point (first / middle / last child, direct child or grandchild, detached
 or attached siblings, every kind of receiver).  After every rejected call the observables of every
 pre-existing object and the registry are compared with the snapshot taken before the call (frame
-oracle on the real objects); the whole history is also compared with the Lean state machine (K1)."""
+oracle on the real objects); the whole history -- including the transform visitor / transformer
+operations -- is also compared with the Lean state machine (K1)."""
 from __future__ import annotations
 
 import random
@@ -12,7 +13,7 @@ import random
 import legacy_machine as M
 
 PROPERTY = "C19"
-LEAN_MODULE = "PyOak.Props.C19"
+LEAN_MODULE = "PyOak.Props.C19TransformGen"   # imports PyOak.Props.C19Transform, PyOak.Props.C19
 THEOREMS = ["PyOak.Legacy.C19." + t for t in [
     "fail_frame_new", "fail_frame_attach", "detach_never_rejected", "fail_frame_replace_keys",
     "replace_rollback_frame", "fail_frame_replace", "fail_frame_rwith_precheck",
@@ -20,14 +21,28 @@ THEOREMS = ["PyOak.Legacy.C19." + t for t in [
 ]] + ["PyOak.Legacy." + t for t in [
     "attach_fail_frame", "construct_fail_frame", "attachPlan_desc", "commit_restore", "reattach_frame",
     "attach_err_kind", "attach_effect", "construct_newOnly", "duplicate_all",
+]] + ["PyOak.Legacy.C19T." + t for t in [
+    "frameG_of_newOnly", "FrameG.frame_of_reg", "replace_local", "local_step", "localRun_frameG",
+    "tvisit_fail_before_commit_frame_partial", "tvisit_fail_at_only_commit_frame_partial",
+    "texec_partial_commit_fails", "tvisit_detached_partial_commit_fails",
+    # Props/C19TransformGen.lean: the visit of a clone is clone-local, for every state / receiver / rule table
+    "construct_detached_eff", "replace_detached_stable", "new_kidless_stable", "cloneSub_stable", "tKids_local",
+    "tFields_local", "wfFor_of", "replace_step_local", "visitBody_local", "visitGo_local", "duplicate_clone_reg",
+    "step_dup_clone_reg", "tvisit_fail_in_visit_frame", "fail_frame_tvisit_in_visit", "fail_frame_tvisit_in_visit_exact",
 ]]
 PARTIAL = [
     "fail_frame_dup is stated without the garbage collection: it proves that a rejected duplicate leaves every "
     "pre-existing record and registry entry untouched and that any additional entry belongs to an object created by the "
     "rejected call; that these temporaries are gone when the call returns is the weak registry (gcNew in "
     "Handle/Legacy.lean, glue outside `step`)",
-    "transform visitor / ASTTransformer.execute: not modelled in Lean; frame oracle on the real objects only "
-    "(3 known findings: no roll-back across several replaced nodes)",
+    "transform visitor / ASTTransformer.execute (Model/LegacyTransform.lean): fail_frame_tvisit_in_visit proves, for ALL "
+    "states / attached receivers / rule tables (made nodes = constructor calls without children), that a transform "
+    "rejected while its clone is being visited keeps Inv and the frame modulo the call's own temporaries (FrameG, the "
+    "formulation of fail_frame_dup; plain Frame when the registry is unchanged); tvisit_fail_at_only_commit_frame_partial "
+    "(rejected BY the final replace_with of the receiver) and tvisit_fail_before_commit_frame_partial (any receiver) "
+    "carry the decidable hypothesis that the primitive steps before the commit are clone-local (LocalRun); the known "
+    "findings (no roll-back across several replaced nodes) are decide-checked witnesses texec_partial_commit_fails / "
+    "tvisit_detached_partial_commit_fails; frame oracle on the real objects + K1 on every run",
 ]
 RULE = ("seeded histories (0-25 generated operations) followed by 3 operations built to be rejected, drawn from: "
         "constructor with a repeated child / twin ids / a child attached elsewhere / a stale child whose id is "
